@@ -173,10 +173,10 @@ theorem call_ok (lib : Placed p B) (fok : FnsOK p ck B dA fa fns) (f : Nat) (ih 
           cases hdfn : fd.dfn with
           | false => rw [hmdF hdfn]; rfl
           | true => obtain ⟨e, v, hv⟩ := hmdT hdfn; rw [e, hv]; rfl
-        have hmy : mdc ≠ .you := by
+        have hmy : mdc.isYou = false := by
           cases hdfn : fd.dfn with
-          | false => rw [hmdF hdfn]; intro h; cases h
-          | true => obtain ⟨e, v, hv⟩ := hmdT hdfn; rw [e, hv]; intro h; cases h
+          | false => rw [hmdF hdfn]; rfl
+          | true => obtain ⟨e, v, hv⟩ := hmdT hdfn; rw [e, hv]; rfl
         -- what the callee cannot touch: everything from the caller's stack offset up
         have hrdm3 : ∀ x, F - o ≤ x → m3.rd x = m.rd x := fun x hx => by
           rw [hrd3 x (by omega), k2.hi x (by omega), k0.hi x (by omega)]
@@ -269,18 +269,18 @@ theorem call_ok (lib : Placed p B) (fok : FnsOK p ck B dA fa fns) (f : Nat) (ih 
             · rw [e]
               exact ⟨hszC, by rw [hi.ap, fr.ap], fun x hx => hrdC x (by simp only [Md.kb] at hx; omega)⟩
           -- no end of the callee halts, if the caller says so
-          have hsafeC : Safe p B dA (pc + 1 + push.length + 3) ⟨0, 0, fd.dfn⟩ mdc false fns (paramGam p.w (2 * p.w) fd.params) envb
+          have hsafeC : Safe p B dA (pc + 1 + push.length + 3) ⟨0, 0, fd.dfn⟩ mdc false fd.dfn fns (paramGam p.w (2 * p.w) fd.params) envb
               (F - o) (D - o) (entryOff p.w fd.params) (faddr fa fd.name + prologueLen ck +
                 (cS (cxOf p ck B dA) fa ⟨0, 0, fd.dfn⟩ (paramGam p.w (2 * p.w) fd.params) (faddr fa fd.name + prologueLen ck)
                   (entryOff p.w fd.params) fd.body).length) m3 resb fd.body := by
             left
             cases hdfn : fd.dfn with
             | false =>
-              refine ⟨hmy, fun h => (by cases h), plain_noTry _ _ (fok.plain fd hmem hdfn), Or.inl ?_⟩
+              refine ⟨hmy, ⟨fun h => (by cases h), fun h => (by cases h)⟩, plain_noTry _ _ (fok.plain fd hmem hdfn), Or.inl ?_⟩
               rw [hmdF hdfn]; exact HaltW.plain
             | true =>
               obtain ⟨e', v, hv⟩ := hmdT hdfn
-              refine ⟨hmy, fun _ => ⟨v, by rw [e', hv]⟩, fok.dfnNoTry fd hmem hdfn, ?_⟩
+              refine ⟨hmy, ⟨fun _ => ⟨v, by rw [e', hv]⟩, fun _ => Or.inl ⟨v, by rw [e', hv]⟩⟩, fok.dfnNoTry fd hmem hdfn, ?_⟩
               rcases hwld (by rw [hisd, hdfn]) with hh | ⟨hret, hdef⟩
               · left; rw [e']; exact hh
               · right
@@ -313,7 +313,7 @@ theorem call_ok (lib : Placed p B) (fok : FnsOK p ck B dA fa fns) (f : Nat) (ih 
                 | defeat =>
                   simp only [hdfn, if_true, Option.some.injEq, Prod.mk.injEq] at hcw
                   exact hdef hcw.2.1.symm st' (convD hdfn st' (by rw [hdfn]; exact hp))
-          have hbody := ih (F - o) (D - o) (pc + 1 + push.length + 3) hend ⟨0, 0, fd.dfn⟩ ⟨by show 0 < _; omega, by show 0 < _; omega⟩ mdc false fd.body (paramGam p.w (2 * p.w) fd.params)
+          have hbody := ih (F - o) (D - o) (pc + 1 + push.length + 3) hend ⟨0, 0, fd.dfn⟩ ⟨by show 0 < _; omega, by show 0 < _; omega⟩ mdc false fd.dfn fd.body (paramGam p.w (2 * p.w) fd.params)
             (bindEnv fd.params vs) (faddr fa fd.name + prologueLen ck) (entryOff p.w fd.params) m3 envb trb resb
             hplb (by omega) hinv3 (disj_paramGam p.w fd.params (2 * p.w) (fok.nodup fd hmem))
             (by rw [map_fst_paramGam]; exact fok.wf fd hmem) hfit heW hexb
